@@ -1120,6 +1120,7 @@ qh::GenOptions genOptionsFor(const std::string& property, sim::Rng& knob) {
     if (property == "C02") { go.boundaryDrawProb = 0.3; }
     go.tracked = knob.chance(0.3);
     if (property == "C04") go.aliasProb = knob.chance(0.3) ? 0.12 : 0.0;
+    if (property == "C06") go.aliasProb = knob.chance(0.25) ? 0.1 : 0.0;
     if (property == "C05") go.hugeLoopProb = knob.chance(0.00006) ? 0.5 : 0.0;
     if (property == "C03" || property == "C05" || property == "C06") go.nonFiniteAngleProb = knob.chance(0.3) ? 0.01 : 0.0;
     if (property == "C03") { go.aliasProb = knob.chance(0.1) ? 0.12 : 0.0; go.cycleProb = knob.chance(0.4) ? 0.1 : 0.0; go.portProb = knob.chance(0.25) ? 0.1 : 0.0; }
